@@ -387,6 +387,9 @@ pub fn gen_name(r: &mut Prng, style: u8, text_safe: bool, longish: bool) -> Stri
         while s.len() < target {
             if r.chance(1, 3) {
                 s.push_str(*r.pick(&MB[..]));
+            } else if r.chance(1, 7) && !s.ends_with(' ') {
+                // blanks all along the name, so that the 255-byte cut sometimes lands right behind one
+                s.push(' ');
             } else {
                 s.push((b'a' + r.below(26) as u8) as char);
             }
